@@ -299,6 +299,9 @@ def multimerge(dfs, on, suffixes=None, **kwargs):
 
     merge_kwargs = dict(how="outer")
     merge_kwargs.update(kwargs)
+    # list-like suffixes: an ndarray / Index / Series has no truth value
+    if suffixes is not None:
+        suffixes = list(suffixes)
     if suffixes:
         dfs_new = []
         for df, suffix in zip(dfs, suffixes):
